@@ -31,12 +31,12 @@ func resetGlobals() {
 
 func cfgCacheReset() {}
 
-var defaultChecks = []string{"nil", "bounds", "div", "nilmap", "panic", "typeassert", "lock", "randarg", "copylen"}
+var defaultChecks = []string{"nil", "bounds", "div", "nilmap", "panic", "typeassert", "lock", "lockset", "randarg", "copylen"}
 
 // verifyFunc generates the obligations of one function under one configuration value.
 var debugEvalExprs []string
 
-func (P *Prog) verifyFunc(fn *ssa.Function, c *Contract, cfgVal int, hasCfg bool) (res *FuncResult) {
+func (P *Prog) verifyFunc(fn *ssa.Function, c *Contract, cfgVal int, hasCfg bool, extra ...int) (res *FuncResult) {
 	resetGlobals()
 	res = &FuncResult{Fn: fn, Name: shortFuncName(fn), Contract: c}
 	x := &Exec{P: P, fn: fn, contract: c, trusted: map[string]bool{}, safetyN: map[string]int{}, checks: map[string]bool{},
@@ -49,6 +49,13 @@ func (P *Prog) verifyFunc(fn *ssa.Function, c *Contract, cfgVal int, hasCfg bool
 		x.cfgVar = c.Config.Var
 		x.cfgVal = cfgVal
 		res.Config = fmt.Sprintf("%s=%d", x.cfgVar, cfgVal)
+	}
+	for i, v := range extra {
+		x.cfgSuffix += fmt.Sprintf(",%s=%d", c.Splits[i].Var, v)
+		res.Config += fmt.Sprintf(",%s=%d", c.Splits[i].Var, v)
+	}
+	if !hasCfg && len(extra) > 0 {
+		x.cfgSuffix = "@" + strings.TrimPrefix(x.cfgSuffix, ",")
 	}
 	defer func() {
 		if r := recover(); r != nil {
@@ -90,7 +97,7 @@ func (P *Prog) verifyFunc(fn *ssa.Function, c *Contract, cfgVal int, hasCfg bool
 		x.params[fv.Name()] = dv
 	}
 	// configuration coverage: the precondition implies that one of the configurations applies
-	if hasCfg && cfgVal == c.Config.Lo {
+	if hasCfg && (cfgVal == c.Config.Lo || (quickTier && cfgVal == c.Config.QLo)) {
 		x.configCover(st, c, res.Name)
 	}
 	// configuration bindings
@@ -98,6 +105,33 @@ func (P *Prog) verifyFunc(fn *ssa.Function, c *Contract, cfgVal int, hasCfg bool
 	if hasCfg {
 		for _, b := range c.Config.Bindings {
 			x.bindConfigValue(st, ce, b)
+		}
+	}
+	// split variables: coverage obligation (first combination only), then binding
+	if len(extra) > 0 {
+		first := true
+		for i, v := range extra {
+			env := map[string]int{}
+			if hasCfg {
+				env[c.Config.Var] = cfgVal
+			}
+			for k := 0; k < i; k++ {
+				env[c.Splits[k].Var] = extra[k]
+			}
+			if v != intEval(c.Splits[i].Lo, env) {
+				first = false
+			}
+		}
+		x.splitVals = map[string]int{}
+		for i, v := range extra {
+			x.splitVals[c.Splits[i].Var] = v
+		}
+		if first {
+			x.splitCover(st, c, res.Name, cfgVal, hasCfg)
+		}
+		ce = x.newCEnv(st)
+		for i, v := range extra {
+			x.bindConfigValue(st, ce, ConfigBinding{c.Splits[i].LHS, &CExpr{Op: "int", Int: int64(v)}})
 		}
 	}
 	x.oldHeap = st.heap.Clone()
@@ -130,6 +164,11 @@ func (P *Prog) verifyFunc(fn *ssa.Function, c *Contract, cfgVal int, hasCfg bool
 		x.assumeGlobal(x.evalClause(ce, r, res.Name))
 	}
 	x.cover(st, "requires")
+	// lock discipline (C16): families that must only be touched while a mutex is held
+	for _, g := range c.Guards {
+		pl := ce.lvaluePlace(g.Lock)
+		x.guards = append(x.guards, activeGuard{fam: pl.Prefix + "#held", idx: pl.Idx, prefixes: g.Prefixes, text: g.Text})
+	}
 	// lemmas stated at entry: proved from the precondition, then available to everything that follows
 	for ai, a := range c.Asserts {
 		if a.Anchor != "entry" {
@@ -208,6 +247,23 @@ func (P *Prog) verifyFunc(fn *ssa.Function, c *Contract, cfgVal int, hasCfg bool
 		}
 		goal := x.evalClause(post, e, res.Name)
 		note := e.Text
+		// vacuity guard: the antecedent of an implication clause must be reachable
+		if e.Expr.Op == "==>" {
+			func() {
+				defer func() { recover() }()
+				ante := post.evalBool(e.Expr.Args[0])
+				if !ante.IsTrue() {
+					name := fmt.Sprintf("%s/cover:%s", res.Name, lbl)
+					if x.hasCfg {
+						name += fmt.Sprintf("@%s=%d", x.cfgVar, x.cfgVal)
+					}
+					name += x.cfgSuffix
+					hy := append(append([]*Term{}, x.hyps...), final.pc, ante)
+					x.obls = append(x.obls, &Obligation{Name: name, Group: name, Func: res.Name, Kind: "cover", Hyps: hy, Cover: true, Props: c.Props,
+						Note: "the antecedent of clause " + lbl + " is reachable"})
+				}
+			}()
+		}
 		for _, f := range P.findingsFor(res.Name) {
 			if f.Label != lbl || (f.Kind != "" && f.Kind != "ensures") {
 				continue
@@ -222,6 +278,7 @@ func (P *Prog) verifyFunc(fn *ssa.Function, c *Contract, cfgVal int, hasCfg bool
 			if x.hasCfg {
 				name += fmt.Sprintf("@%s=%d", x.cfgVar, x.cfgVal)
 			}
+			name += x.cfgSuffix
 			hy := append(append([]*Term{}, x.hyps...), final.pc, exc, Not(goal))
 			x.obls = append(x.obls, &Obligation{Name: name, Group: name, Func: res.Name, Kind: "finding", Hyps: hy, Cover: true, Props: c.Props,
 				Note: fmt.Sprintf("%s/%s: %s", res.Name, lbl, f.What), Watch: x.watch})
@@ -387,6 +444,9 @@ func (x *Exec) frameAgainst(st *State, ref *Heap, locs []hloc, kind, prefix stri
 			for i := range l.idx {
 				c = And(c, Eq(idx[i], l.idx[i]))
 			}
+			if l.guard != nil {
+				c = And(c, l.guard)
+			}
 			excl = append(excl, c)
 		}
 		goal := Or(append(excl, Eq(nf.Select(idx), of.Select(idx)))...)
@@ -472,4 +532,35 @@ func (x *Exec) configCover(st *State, c *Contract, fname string) {
 	o := &Obligation{Name: fname + "/config-cover:" + c.Config.Var, Func: fname, Kind: "config-cover", Hyps: append(append([]*Term{}, x.hyps...), hyps...),
 		Goal: Or(alts...), Note: "the precondition implies that one of the configurations " + fmt.Sprintf("%s=%d..%d", c.Config.Var, c.Config.Lo, c.Config.Hi) + " applies", Props: c.Props}
 	x.obls = append(x.obls, o)
+}
+
+// splitCover: under the configuration binding, the precondition implies that every split location
+// lies within its range (so the enumerated combinations are exhaustive).
+func (x *Exec) splitCover(st *State, c *Contract, fname string, cfgVal int, hasCfg bool) {
+	save := x.splitVals
+	x.splitVals = nil
+	ce := x.newCEnv(st)
+	ce.old = st.heap
+	var hyps []*Term
+	for _, r := range c.Requires {
+		func() {
+			defer func() { recover() }()
+			hyps = append(hyps, ce.evalBool(r.Expr))
+		}()
+	}
+	goal := True()
+	for _, sp := range c.Splits {
+		func() {
+			defer func() { recover() }()
+			v := ce.evalInt(sp.LHS)
+			goal = And(goal, Le(ce.evalInt(sp.Lo), v), Le(v, ce.evalInt(sp.Hi)))
+		}()
+	}
+	x.splitVals = save
+	name := fname + "/split-cover"
+	if hasCfg {
+		name += fmt.Sprintf("@%s=%d", x.cfgVar, cfgVal)
+	}
+	x.obls = append(x.obls, &Obligation{Name: name, Group: name, Func: fname, Kind: "config-cover", Hyps: append(append([]*Term{}, x.hyps...), hyps...), Goal: goal,
+		Note: "the precondition bounds every split location by its range", Props: c.Props})
 }
